@@ -41,6 +41,7 @@ type Req struct {
 	HMulti     http.Header // additional multi-valued headers
 	Body       []byte
 	UnknownLen bool // send with ContentLength -1 (as a chunked client does)
+	Short      int  // > 0: the body ends after Body although Short more bytes were announced; the handler's read fails the way net/http's does (unexpected EOF)
 	RemoteAddr string
 	Ctx        context.Context
 }
@@ -54,6 +55,10 @@ type Resp struct {
 }
 
 type onlyReader struct{ r io.Reader }
+
+type brokenReader struct{}
+
+func (brokenReader) Read(p []byte) (int, error) { return 0, io.ErrUnexpectedEOF }
 
 func (o onlyReader) Read(p []byte) (int, error) { return o.r.Read(p) }
 
@@ -72,6 +77,12 @@ func Do(h http.Handler, rq Req) (rs Resp) {
 	}
 	if rq.UnknownLen {
 		req.ContentLength = -1
+	}
+	if rq.Short > 0 {
+		req.Body = io.NopCloser(io.MultiReader(bytes.NewReader(rq.Body), brokenReader{}))
+		if !rq.UnknownLen {
+			req.ContentLength = int64(len(rq.Body) + rq.Short)
+		}
 	}
 	if req.Body == nil {
 		req.Body = http.NoBody // a server always hands the handler a non-nil body
